@@ -361,9 +361,131 @@ func genC01Autosuggest(g *Gen) *wire.Scenario {
 	return sc
 }
 
+// genC01Keyword: text with the things the keyword and number commands look for (a URL, numbers, booleans,
+// operators) and those commands mixed with the ones that reset or use a selection.
+func genC01Keyword(g *Gen) *wire.Scenario {
+	mode := Pick(g, []string{"emacs", "emacs", "vi"})
+	sc := &wire.Scenario{Prop: "C01", Family: "edit-keyword", Env: g.swarmEnv(mode)}
+	texts := []string{"see http://example.com/path?x=1 now", "curl -s https://www.example.org/a/b.c?q=1&r=2", "x=10 y=-3 true && false", "0x1f + 0b101 - 077", "http://a.io", "a https://example.com"}
+	text := Pick(g, texts)
+	for _, r := range text {
+		sc.Script = append(sc.Script, tok(string(r), "self-insert"))
+	}
+	km := "emacs"
+	if mode == "vi" {
+		km = "vi-insert"
+		if g.P(60) {
+			sc.Script = append(sc.Script, tok("\x1b", "vi-movement-mode"))
+			km = "vi-command"
+		}
+	}
+	back := map[string]string{"emacs": "backward-char", "vi-insert": "backward-char", "vi-command": "vi-backward-char"}[km]
+	for i := 0; i < g.N(len(text)); i++ {
+		if seq := g.Cat.ShortSeqFor(km, back); seq != "" {
+			sc.Script = append(sc.Script, tok(seq, back))
+		}
+	}
+	pool := []string{"select-keyword-next", "select-keyword-next", "select-keyword-prev", "select-keyword-prev", "keyword-increase", "keyword-decrease",
+		"copy-region-as-kill", "copy-backward-word", "copy-forward-word", "kill-region", "exchange-point-and-mark", "forward-word", "backward-word",
+		"forward-char", "backward-char", "set-mark", "undo", "yank", "vi-movement-mode", "vi-visual-mode", "beginning-of-line", "end-of-line"}
+	for i := 0; i < g.Range(2, 12); i++ {
+		cmd := Pick(g, pool)
+		seq := g.Cat.ShortSeqFor(km, cmd)
+		if seq == "" {
+			continue
+		}
+		if g.P(15) && km != "vi-insert" {
+			d := fmt.Sprint(g.Range(2, 12))
+			if km == "emacs" {
+				d = "\x1b" + strings.Join(strings.Split(d, ""), "\x1b")
+			}
+			sc.Script = append(sc.Script, tok(d, "digit-argument"))
+		}
+		sc.Script = append(sc.Script, tok(seq, cmd))
+	}
+	if g.P(50) {
+		sc.Script = append(sc.Script, tok("\r", "prompt-end"))
+		// and again at the next prompt: what these commands remember outlives the call
+		for _, r := range Pick(g, texts) {
+			sc.Script = append(sc.Script, tok(string(r), "self-insert"))
+		}
+		for i := 0; i < g.Range(1, 4); i++ {
+			if seq := g.Cat.ShortSeqFor(map[string]string{"emacs": "emacs", "vi-insert": "vi-insert", "vi-command": "vi-insert"}[km], Pick(g, pool[:6])); seq != "" {
+				sc.Script = append(sc.Script, tok(seq, "keyword-command"))
+			}
+		}
+	}
+	sc.Plan = wire.Plan{Policy: "seeded", Class: Pick(g, []string{"S1", "S2"}), Seed: g.Seed()}
+	return sc
+}
+
+// genC01HistorySearch: a history whose entries begin alike, the beginning of one of them typed, the point
+// moved about, and the history search and walk commands mixed with motions (a search takes its text from
+// the line being typed up to the point, whatever line is displayed by then).
+func genC01HistorySearch(g *Gen) *wire.Scenario {
+	mode := Pick(g, []string{"emacs", "emacs", "vi"})
+	sc := &wire.Scenario{Prop: "C01", Family: "edit-history-search", Env: g.swarmEnv(mode)}
+	pool := []string{"echo first", "echo second line that is longer", "echo", "ls -la /tmp", "ls", "git commit -m 'x'", "git status", "e", "日本語 echo", "echo héllo"}
+	var es []string
+	for i := 0; i < g.Range(1, 7); i++ {
+		es = append(es, Pick(g, pool))
+	}
+	sc.Env.History = []wire.HistSrc{{Kind: Pick(g, []string{"memory", "file"}), Name: "h0", Entries: es}}
+	sc.Env.NoDefaultHistory = true
+	km := "emacs"
+	if mode == "vi" {
+		km = "vi-insert"
+	}
+	e := Pick(g, es)
+	for _, r := range e[:g.N(len(e)+1)] {
+		if r < 0x80 {
+			sc.Script = append(sc.Script, tok(string(r), "self-insert"))
+		}
+	}
+	if g.P(35) {
+		// search, move the point on the line found, search again
+		for i := 0; i < g.Range(1, 3); i++ {
+			if seq := g.Cat.ShortSeqFor(km, "backward-char"); seq != "" {
+				sc.Script = append(sc.Script, tok(seq, "backward-char"))
+			}
+		}
+		for i := 0; i < g.Range(1, 2); i++ {
+			for _, cmd := range []string{Pick(g, []string{"history-search-backward", "history-search-backward", "history-search-forward"}), Pick(g, []string{"end-of-line", "end-of-line", "forward-word", "beginning-of-line", "previous-history"})} {
+				if seq := g.Cat.ShortSeqFor(km, cmd); seq != "" {
+					sc.Script = append(sc.Script, tok(seq, cmd))
+				}
+			}
+		}
+	}
+	cmds := []string{"history-search-backward", "history-search-backward", "history-search-forward", "history-substring-search-backward", "history-substring-search-forward",
+		"previous-history", "next-history", "beginning-of-history", "end-of-history", "backward-char", "backward-char", "forward-char", "end-of-line", "beginning-of-line",
+		"backward-word", "forward-word", "backward-delete-char", "kill-line", "undo", "up-line-or-search", "down-line-or-search", "up-line-or-history", "down-line-or-history", "yank-last-arg"}
+	for i := 0; i < g.Range(3, 14); i++ {
+		if g.P(10) {
+			sc.Script = append(sc.Script, tok(string(Pick(g, []rune("eclg s"))), "self-insert"))
+			continue
+		}
+		cmd := Pick(g, cmds)
+		if seq := g.Cat.ShortSeqFor(km, cmd); seq != "" {
+			sc.Script = append(sc.Script, tok(seq, cmd))
+		}
+	}
+	if g.P(40) {
+		sc.Script = append(sc.Script, tok("\r", "accept-line"))
+	}
+	sc.Plan = wire.Plan{Policy: "seeded", Class: Pick(g, []string{"S1", "S2"}), Seed: g.Seed()}
+	return sc
+}
+
 func genC01(g *Gen, tier string, idx int) *wire.Scenario {
+	if idx%16 == 9 {
+		return genC01HistorySearch(g)
+	}
 	if idx%16 == 5 {
 		return genC01Autosuggest(g)
+	}
+	if idx%16 == 13 {
+		return genC01Keyword(g)
 	}
 	if idx%8 == 7 {
 		return genC01ViStructured(g)
@@ -405,7 +527,7 @@ func genC01(g *Gen, tier string, idx int) *wire.Scenario {
 func execC01(x *Ctx, sc *wire.Scenario) *wire.Result {
 	res := okResult(sc)
 	hooks := sim.Hooks{}
-	if sc.Family == "edit-multi-prompt" {
+	if sc.Family == "edit-multi-prompt" || sc.Family == "edit-keyword" {
 		calls := 1
 		for _, t := range sc.Script {
 			if t.Cmd == "prompt-end" {
